@@ -8,9 +8,9 @@
 From Coq Require Import String Ascii List Bool ZArith.
 From NRI Require Import Base.Strs Base.Assoc Model.Convert Run.Common.
 Import ListNotations.
-Open Scope string_scope.
-Open Scope list_scope.
-Open Scope Z_scope.
+Local Open Scope string_scope.
+Local Open Scope list_scope.
+Local Open Scope Z_scope.
 
 (* ------------------------------------------------------------------ equalities *)
 
